@@ -2,4 +2,4 @@ Require Import QtlVerif.JsonDefs QtlVerif.SrcJson.
 Require Extraction.
 Require Import ExtrOcamlBasic.
 Definition json_format_src := json_format src_json_cfg.
-Extraction "json_model.ml" json_format_src prop_c13_b parse_doc write_doc sort_keys unitsb.
+Extraction "json_model.ml" json_format_src prop_c13_b parse_doc write_doc sort_keys unitsb num_value num_in_range.
